@@ -130,6 +130,33 @@ def ni_cfg(ctx, name, table, others="O1", inst_a=1, inst_o=1, max_pw=1, other_fu
     return path
 
 
+def crowd(rng):
+    """Other clients that come and go before the observed ones: 9-40 short-lived announcements (serial numbers and request
+    table churn are shared state too: the observed client's serial becomes two hex digits / differs from its decimal form)."""
+    ev = []
+    for k in range(rng.choice((9, 15, 16, 17, 40))):
+        i = 100 + k
+        ev.append({"e": "C", "id": i, "addr": "A%x" % i, "port": 2000 + k})
+        if k % 3 == 0:
+            ev.append({"e": "H", "id": i})
+        ev.append({"e": "D", "id": i})
+    return ev
+
+
+def with_crowd(rng, full):
+    """Prefix the interleaved history with a crowd and re-spell its routing tags for the shifted serials."""
+    cr = crowd(rng)
+    n = sum(1 for e in cr if e["e"] == "C")
+    out = list(cr)
+    for e in full:
+        if e["e"] == "X":
+            m = _TAG.match(e["tag"])
+            if m:
+                e = dict(e, tag="%s_%x" % (m.group(1), int(m.group(2), 16) + n))
+        out.append(e)
+    return out
+
+
 def noninterf_model(ctx, name, table, exhaustive=True, timeout=900, want_behaviours=False, workers=12, simulate=None,
                     depth=None, **cfgkw):
     """TLC on NonInterf.tla; returns (result, world-1 behaviours or None)."""
@@ -225,6 +252,8 @@ def two_client_jobs(ctx, name, table, nb, **cfgkw):
             if e["e"] == "X" and "oid" not in e:
                 m = _TAG.match(e["tag"])
                 e["oid"] = int(m.group(1), 16) if m else None
+        if len(distinct) % 3 == 0:
+            full = with_crowd(ctx.rng, full)
         for a in ids:
             solo, pairs = project(full, a)
             if len(solo) >= 2:
@@ -255,6 +284,8 @@ def three_client_jobs(ctx, name, table, nmerge, **mc):
             if e["e"] == "X" and "oid" not in e:
                 m = _TAG.match(e["tag"])
                 e["oid"] = int(m.group(1), 16) if m else None
+        if n % 3 == 0:
+            full = with_crowd(ctx.rng, full)
         a = ctx.rng.choice((4, 5, 6))
         solo, pairs = project(full, a)
         jobs.append((len(jobs), full, solo, pairs, True))
